@@ -295,6 +295,12 @@ pub fn check(c: &Case) -> Option<(String, String)> {
         let kind = if body[pos] == b'\n' || body[pos] == b'\r' { "line:raw-newline-inside" } else { "line:raw-control-character" };
         return Some((kind.into(), format!("byte {:#x} at offset {} of {:?}", body[pos], pos, shown)));
     }
+    // control characters beyond ASCII: DEL, the C1 block (NEL U+0085 is a newline in its own right), and the
+    // Unicode line / paragraph separators, which break a line for every Unicode-aware reader
+    if let Some((pos, ch)) = shown.char_indices().find(|(i, c)| *i < body.len() && (c.is_control() || *c == '\u{2028}' || *c == '\u{2029}')) {
+        let kind = if matches!(ch, '\u{85}' | '\u{2028}' | '\u{2029}') { "line:raw-newline-inside" } else { "line:raw-control-character" };
+        return Some((kind.into(), format!("U+{:04X} at offset {} of {:?}", ch as u32, pos, shown)));
+    }
     let doc = match P::parse_document(body) {
         Ok(J::Obj(m)) => m,
         Ok(other) => return Some(("json:not-an-object".into(), format!("{:?}", other))),
@@ -451,7 +457,7 @@ pub fn run(ctx: &Ctx) -> Report {
          exactly; plus two/three-step histories on one thread in which an encode is cut short (sink failing at every write position, panicking Display \
          argument) before a normal encode. Non-trivial = case with at least one character that needs escaping or an absent optional field",
     );
-    let alpha = ["a", "\"", "\\", "/", "\n", "\r", "\t", "\0", "\u{1f}", "\u{7f}", "é", "\u{2028}", "😀", "\u{ffff}", "\u{8}", "\u{c}"];
+    let alpha = ["a", "\"", "\\", "/", "\n", "\r", "\t", "\0", "\u{1f}", "\u{7f}", "\u{85}", "é", "\u{2028}", "😀", "\u{ffff}", "\u{8}", "\u{c}"];
     let maxlen = ctx.tier.pick(3, 4);
     let strs = strings(&alpha, maxlen);
     let base = Case { level: 2, message: "m".into(), target: "t".into(), module: Some("mp".into()), file: Some("f".into()), line: Some(1), thread: Some("th".into()), mdc: vec![] };
